@@ -75,7 +75,7 @@ static const char *name_str[] = {"m1", "m2", "m3", "w", "r", "check-passed", "lo
 
 typedef struct { int tid, cache, kind, name; long arg, flen, rc, wc, tab; unsigned char h[5]; } event_t;
 static event_t alt_obs[4]; /* cache-1 observation of a yield whose cache is not yet known */
-typedef struct { int ev; char kind[40]; char detail[120]; } viol_t;
+typedef struct { int ev; char kind[40]; char detail[200]; } viol_t;
 typedef struct {
   int nev, nviol, ndec, status;  /* status: 0 running/crashed, 1 ok, 2 deadlock, 3 overflow */
   int wrong[MAXT][MAXJOBS];
@@ -466,6 +466,9 @@ static void do_line(char const *line)
   waitpid(pid, &st, 0);
   printf("RUN %s threads=%d warm0=%d warm1=%d\n", r.id, nthreads, r.warm, r.warm);
   for (i = 0; i < sh->nev; ++i) { event_t *e = &sh->ev[i];
+    /* a run that died right after this yield never told us the thread's `len` (it is back-patched at the thread's next event):
+     * the event is that thread's last one and says nothing the model could check */
+    if (e->kind == K_YIELD && e->name == N_REBUILD_BEGIN && e->arg == 0) continue;
     if (e->kind == K_VR) printf("V %d %s\n", e->tid, name_str[e->name]);
     else printf("E %d %d %s %s %ld %ld %ld %ld %ld %d %d %d %d %d\n", e->tid, e->cache < 0 ? 0 : e->cache, kind_name[e->kind], name_str[e->name], e->arg,
       e->flen, e->rc, e->wc, e->tab, e->h[0], e->h[1], e->h[2], e->h[3], e->h[4]); }
